@@ -171,6 +171,16 @@ class Tensor:
             return self._opset.Mod(self, other, fmod=1)
         return self._opset.Mod(self, other)
 
+    def __rmod__(self, other):
+        if self.onnx_dtype in {
+            ir.DataType.FLOAT,
+            ir.DataType.DOUBLE,
+            ir.DataType.FLOAT16,
+            ir.DataType.BFLOAT16,
+        }:
+            return self._opset.Mod(other, self, fmod=1)
+        return self._opset.Mod(other, self)
+
     def __ne__(self, other):
         temp = self._opset.Equal(self, other)
         return self._opset.Not(temp)
@@ -213,6 +223,18 @@ class Tensor:
 
     def __truediv__(self, other):
         return self._opset.Div(self, other)
+
+    def __rtruediv__(self, other):
+        return self._opset.Div(other, self)
+
+    def __rpow__(self, other):
+        return self._opset.Pow(other, self)
+
+    def __rmatmul__(self, other):
+        return self._opset.MatMul(other, self)
+
+    def __ror__(self, other):
+        return self._opset.Or(other, self)
 
     def __lt__(self, other):
         return self._opset.Less(self, other)
